@@ -275,6 +275,10 @@ class World:
     def interleaving_signature(self):
         return hash(tuple(sorted((k, tuple(v)) for k, v in self.arrivals.items()))) & 0xFFFFFFFF
 
+    def excerpt(self, n=6):
+        """a few recorded events per rank, for evidence samples"""
+        return {"creations_rank0": [list(x) if x else x for x in self.creations[0]][:8], "events": {str(r): [[e["op"], list(e["group"]), e["seq"], e["iter"], e["nbytes"], e["dtype"]] for e in ev[:n]] for r, ev in list(self.events.items())[:3]}, "arrival_orders": [[list(k[0]), k[1], v] for k, v in list(self.arrivals.items())[:4]]}
+
     def n_collectives(self):
         return sum(len(v) for v in self.events.values())
 
